@@ -300,6 +300,46 @@ async def reuse_case(ctx, case: dict) -> None:
     await stepper.close()
 
 
+async def mass_park_case(ctx, case: dict) -> None:
+    """Scale: thousands of distinct (node, child, type) commands held at once for several sleeping nodes; after every
+    node woke, every accepted send has reached the transport exactly once."""
+    from aiomysensors.model.message import Message
+    from aiomysensors.model.node import Child, Node
+
+    version = case["version"]
+    gateway, transport = new_gateway(version)
+    stepper = Stepper(gateway, transport)
+    n_nodes, n_children, n_types = case["shape"]
+    for n in range(1, n_nodes + 1):
+        gateway.nodes[n] = Node(n, 17, "2.0", children={c: Child(c, 3) for c in range(n_children)}, sleeping=True)
+    accepted = []
+    for n in range(1, n_nodes + 1):
+        for c in range(n_children):
+            for t in range(n_types):
+                line = f"{n};{c};1;0;{t};m{n}.{c}.{t}\n"
+                kind, exc = await stepper.tx(Message(n, c, 1, 0, t, f"m{n}.{c}.{t}"))
+                if kind == "ok":
+                    accepted.append(line)
+                elif not is_library_error(exc):
+                    ctx.violation("send-foreign-exception-" + type(exc).__name__, f"send #{len(accepted)} raised {type(exc).__name__}", case)
+                    await stepper.close()
+                    return
+    early = transport.take_writes()
+    wake = 32 if version == "2.2" else 22
+    for n in range(1, n_nodes + 1):
+        await stepper.rx(f"{n};255;3;0;{wake};1\n")
+    written = early + transport.take_writes()
+    ctx.case(("mass-park", version, tuple(case["shape"])), sample=case)
+    ctx.clause("mass-park-delivered")
+    missing = sorted(set(accepted) - set(written))
+    duplicated = len(written) - len(set(written))
+    if missing or duplicated:
+        ctx.violation("held-message-lost", f"{len(accepted)} set commands were accepted for {n_nodes} sleeping nodes; after all of them "
+                                           f"woke {len(missing)} never reached the transport (e.g. {missing[:2]}), {duplicated} duplicates",
+                      case)
+    await stepper.close()
+
+
 async def pair_case(ctx, case: dict) -> None:
     """Two sends to a sleeping destination before its wake: neither may be silently discarded
     (a set superseded by a newer set for the same child and type is the only stated exception, C07)."""
@@ -410,7 +450,9 @@ def cases(ctx):
 
 
 def run_case(ctx, case: dict) -> None:
-    if case.get("kind") == "reuse":
+    if case.get("kind") == "mass-park":
+        arun(mass_park_case(ctx, case))
+    elif case.get("kind") == "reuse":
         arun(reuse_case(ctx, case))
     elif case.get("kind") == "mqtt-send":
         mqtt_send_case(ctx, case)
@@ -435,6 +477,10 @@ def run(ctx) -> None:
                     if ctx.mine():
                         arun(fault_send_case(ctx, {"kind": "fault-send", "version": version, "dest": dest, "fields": fields,
                                                    "buffered": buffered}))
+        shapes = [(4, 8, 20), (2, 30, 10), (1, 1, 57)] + ([(10, 20, 25), (3, 100, 20)] if not ctx.quick else [])
+        for i, (version, shape) in enumerate(itertools.product(("2.0", "2.2"), shapes)):
+            if ctx.mine(i):
+                arun(mass_park_case(ctx, {"kind": "mass-park", "version": version, "shape": list(shape)}))
         change_sets = [[{}, {"payload": "second"}], [{}, {"payload": "second"}, {"payload": "third", "ack": 1}],
                        [{}, {"child_id": 7}, {"message_type": 3}], [{}, {}, {"payload": ""}],
                        [{}, {"payload": "x"}, {"payload": "first"}]]
